@@ -137,6 +137,8 @@ def run(prop, tier, seed, only=None, keep=False):
                        "exhaustive": False},
           "assumptions": ASSUMPTIONS, "wall_s": round(wall, 2), "violations": len(real_viol)}
     evname = prop + ".json" if not only else prop + ".partial.json"
+    if os.path.realpath(os.environ.get("VERIF_REPO", "/repo")) != "/repo":
+        evname = prop + ".altrepo.partial.json"
     os.makedirs(os.path.join(VERIF, "evidence"), exist_ok=True)
     json.dump(ev, open(os.path.join(VERIF, "evidence", evname), "w"), indent=1, sort_keys=True, default=str)
     for r, k in known:
